@@ -409,6 +409,15 @@ def closed_ticks_arrays():
             back = m.midi_ticks_to_seconds(sc, mpq=mpq, ppq=ppq)
             if abs(Fraction(back) - Fraction(float(s))) > Fraction(mpq, 2 * 10**6 * ppq) + Fraction(1, 10**9):
                 return False, n, {"input": [float(s), ppq, mpq], "what": "ticks -> seconds off by more than half a tick"}
+        # tick arrays of narrow integer types (what a MIDI reader or a note array column may hold)
+        for dt in (np.int32, np.int16, np.uint16, np.int64):
+            tk_arr = np.array([0, 1, 4295, 30000], dtype=dt)
+            secs_arr = np.asarray(m.midi_ticks_to_seconds(tk_arr, mpq=mpq, ppq=ppq)).ravel()
+            for tk, sec in zip(tk_arr.tolist(), secs_arr):
+                n += 1
+                exact = Fraction(int(tk)) * mpq / (10**6 * ppq)
+                if abs(Fraction(float(sec)) - exact) > Fraction(1, 10**9):
+                    return False, n, {"input": [int(tk), str(np.dtype(dt)), ppq, mpq], "what": "ticks -> seconds of a %s array: %r, the formula gives %s" % (np.dtype(dt), float(sec), float(exact))}
         # ticks that are not whole numbers (rescaled from another resolution), as an array and one by one
         frac = np.array([0.5, 239.5, 1e-3, 959.999, -0.25, -3.5, 1234.5678])
         fa = m.midi_ticks_to_seconds(frac, mpq=mpq, ppq=ppq)
